@@ -126,7 +126,9 @@ BUDGET_S = {'quick': 300, 'thorough': 3000}
 CASE_TIMEOUT_S = 90
 
 LOCAL_USER = None
-ENVV = {'VF_C18_DIR': '/env/dir', 'VF_C18_NAME': 'envname'}
+ENVV = {'VF_C18_DIR': '/env/dir', 'VF_C18_NAME': 'envname',
+        # values of variables go in verbatim, percent signs and all
+        'VF_C18_PCT': '/env/p%hx/100%%', 'VF_C18_PCT2': 'n%-m'}
 
 HOSTS = ['alpha', 'alpha.example.com', 'beta.example.com', 'web1.example.org',
          'web22.example.org', 'db-1.internal', 'x.y.z', 'gw', '10.1.2.3']
@@ -369,9 +371,11 @@ class Gen:
                 base += rng.choice(['', '_%h', '_%r@%n', '/%%/%u', '-%p-%L',
                                     '_%C', '/%i/%l', '/%%h/%h'])
                 if rng.random() < 0.25:
-                    base = '${VF_C18_DIR}' + base
+                    base = rng.choice(['${VF_C18_DIR}', '${VF_C18_DIR}',
+                                       '${VF_C18_PCT}']) + base
                 elif rng.random() < 0.1:
-                    base += '.${VF_C18_NAME}'
+                    base += rng.choice(['.${VF_C18_NAME}',
+                                        '.${VF_C18_PCT2}'])
             elif name == 'IdentityFile' and rng.random() < 0.2:
                 base = f'~/.ssh/id_{u}'
             elif rng.random() < 0.1:
@@ -451,11 +455,9 @@ class Gen:
         if r < 0.52:
             return ('match', [('all', False, None)])
         crits = []
-        if self.kind == 'final' and rng.random() < 0.6:
-            crits.append(('final', False, None))
-            if rng.random() < 0.3:
-                crits.append(('all', False, None))
-                return ('match', crits)
+        want_final = self.kind == 'final' and rng.random() < 0.6
+        if want_final and rng.random() < 0.3:
+            return ('match', [('final', False, None), ('all', False, None)])
         for c in rng.sample(['host', 'originalhost', 'user', 'localuser'],
                             rng.choice([1, 1, 2])):
             neg = rng.random() < 0.25
@@ -467,6 +469,11 @@ class Gen:
             else:
                 arg = gen_patlist(rng, [LOCAL_USER, LOCAL_USER, 'nobody'])
             crits.append((c, neg, arg))
+        if want_final:
+            # anywhere on the line: ssh notes the request for a final pass
+            # even when an earlier criterion has already failed
+            crits.insert(rng.randrange(len(crits) + 1),
+                         ('final', False, None))
         return ('match', crits)
 
     def gen_file(self, path, depth, budget):
@@ -1131,6 +1138,14 @@ def check_client(gen, kind, main, target, feats, defaults, mon, viol, info,
                      'detail': f'{type(exc).__name__}: {exc} (ssh accepts '
                                f'the file); target {tdesc}; files: {show()}'})
         return
+    if final and not cfg.has_match_final() and \
+            not SSHClientConfig.load(None, [main], False, False, False,
+                                     LOCAL_USER, (), target['host'],
+                                     ()).has_match_final():
+        viol.append({'mechanism': 'match_final_not_registered',
+                     'detail': f'a Match line that is reached asks for a '
+                               f'final pass but has_match_final() is False; '
+                               f'target {tdesc}; files: {show()}'})
     mon['host_blocks_hit'] += ref.hits['host']
     mon['match_blocks_hit'] += ref.hits['match']
     mon['includes_followed'] += ref.hits['include']
